@@ -314,6 +314,16 @@ MUTATIONS += [
     dict(id="C12-modify-removed-node-not-flagged", prop="C12", file=MODF, old="                NodeAction::Removed => {\n                    changed = true;\n                }", new="                NodeAction::Removed => {}"),
 ]
 
+# ---- C07/C02/C03 Indexer sections and saving
+IXF2 = "crates/core/src/index/indexer.rs"
+MUTATIONS += [
+    dict(id="C07-indexer-add-marks-pack", prop="C07", file=IXF2, old="    pub fn add(&mut self, pack: IndexPack) -> RusticResult<()> {\n        self.add_with(pack, false)", new="    pub fn add(&mut self, pack: IndexPack) -> RusticResult<()> {\n        self.add_with(pack, true)"),
+    dict(id="C07-indexer-add-remove-live", prop="C07", file=IXF2, old="    pub fn add_remove(&mut self, pack: IndexPack) -> RusticResult<()> {\n        self.add_with(pack, true)", new="    pub fn add_remove(&mut self, pack: IndexPack) -> RusticResult<()> {\n        self.add_with(pack, false)"),
+    dict(id="C07-indexer-reset-without-save", prop="C07", file=IXF2, old="            self.save()?;\n            self.reset();", new="            self.reset();"),
+    dict(id="C07-indexer-save-skips-marked-only", prop="C07", file=IXF2, old="        if (self.file.packs.len() + self.file.packs_to_delete.len()) > 0 {", new="        if self.file.packs.len() > 0 {"),
+    dict(id="C07-indexfile-sections-swapped", prop="C07", file="crates/core/src/repofile/indexfile.rs", old="        if delete {\n            self.packs_to_delete.push(p);\n        } else {\n            self.packs.push(p);\n        }", new="        if delete {\n            self.packs.push(p);\n        } else {\n            self.packs_to_delete.push(p);\n        }"),
+]
+
 HARMLESS = [
     dict(id="H-C05-trees-symlink-continue", prop="C05", file=CK, old="        for node in tree.nodes {\n            match node.node_type {", new="        for node in tree.nodes {\n            if node.node_type == NodeType::Symlink {\n                continue;\n            }\n            match node.node_type {"),
 ]
